@@ -12,7 +12,7 @@ use serde_json::{json, Map, Value};
 
 const STREAM: u64 = 8;
 
-pub const DEVIATIONS: [&str; 35] = [
+pub const DEVIATIONS: [&str; 36] = [
     "none",
     "member-arity",
     "member-nonarray",
@@ -47,6 +47,7 @@ pub const DEVIATIONS: [&str; 35] = [
     "disclosure-trailing-text",
     "disclosure-invalid-utf8",
     "dup-digest-far",
+    "respelled-twin",
     "compose",
 ];
 
@@ -56,9 +57,9 @@ pub fn run(ctx: &Ctx) -> Report {
     let mut rep = Report::new(
         "fault_enumeration",
         "case i: a (payload, disclosures) pair produced by the harness's own encoder (nested objects/arrays depth<=3, hidden members and \
-         elements with present or withheld disclosures, decoys), with deviation kind i%35 forced at a random eligible site (kind \
+         elements with present or withheld disclosures, decoys), with deviation kind i%36 forced at a random eligible site (kind \
          'compose': 2-3 random deviations; 'none': well-formed control that must be accepted), signed with the test issuer key \
-         (alg=(i/35)%3), format=(i/105)%2. Oracle: specification verifier Spec (draft-07 §6.1). evaluations = tokens verified. \
+         (alg=(i/36)%3), format=(i/108)%2. Oracle: specification verifier Spec (draft-07 §6.1). evaluations = tokens verified. \
          Distinct = (payload shape, deviation set, format, alg); non-trivial = at least one deviation applied or >=1 referenced \
          disclosure.",
         local,
@@ -224,6 +225,14 @@ impl<'a> B<'a> {
                 self.pool.push(h.clone());
                 if present {
                     self.discs.push(d);
+                }
+                if present && arr.is_array() && self.dev("respelled-twin") {
+                    // the same disclosure in another spelling (one blank in front): another string, another
+                    // digest, the same name — referenced from the same list: a name collision
+                    let twin = b64e(format!(" {arr}").as_bytes());
+                    sd.push(json!(digest_of(&twin)));
+                    self.pool.push(digest_of(&twin));
+                    self.discs.push(twin);
                 }
                 if present && self.dev("digest-decorated-in-sd") {
                     // not the digest of any disclosure: padding, blanks, case, a second copy decorated
@@ -424,8 +433,8 @@ fn shape(v: &Value) -> u64 {
 fn one_case(ctx: &Ctx, case: u64, l: &mut Local) {
     let mut r = Rng::for_case(ctx.seed, STREAM, case);
     let force = DEVIATIONS[(case % DEVIATIONS.len() as u64) as usize];
-    let alg = ALL_ALGS[((case / 35) % 3) as usize];
-    let fmt = FMTS[((case / 105) % 2) as usize];
+    let alg = ALL_ALGS[((case / 36) % 3) as usize];
+    let fmt = FMTS[((case / 108) % 2) as usize];
     let mut b = B {
         r: &mut r,
         discs: vec![],
@@ -449,7 +458,7 @@ fn one_case(ctx: &Ctx, case: u64, l: &mut Local) {
             applied.push("top-_sd_alg-sha-256");
         }
         "top-_sd_alg-other" => {
-            payload["_sd_alg"] = json!(*r.pick(&["md5", "SHA-256", "sha-512", "", "sha256", "sha-256 ", "sha3-256"]));
+            payload["_sd_alg"] = json!(*r.pick(&["md5", "SHA-256", "sha-512", "", "sha256", "sha-256 ", "sha3-256", "sha", "sha-", "256", "-256", "a", "-", "sha-25", "ha-256", "sha-2560", "xsha-256"]));
             applied.push("top-_sd_alg-other");
         }
         "top-_sd_alg-nonstring" => {
@@ -489,7 +498,7 @@ fn one_case(ctx: &Ctx, case: u64, l: &mut Local) {
             }
         }
     }
-    if force == "none" && (case / 35) % 2 == 0 {
+    if force == "none" && (case / 36) % 2 == 0 {
         // well-formed control: two DIFFERENT digests that share their first / last six characters
         // (found once per process by a birthday search over salts); both claims must come out
         let (a, b) = prefix_sharing_pair();
@@ -553,7 +562,7 @@ fn one_case(ctx: &Ctx, case: u64, l: &mut Local) {
         disclosures: discs.clone(),
         kb,
     };
-    let pres = match parts.encode(fmt, case / 210) {
+    let pres = match parts.encode(fmt, case / 216) {
         Some(p) => p,
         None => return,
     };
